@@ -85,7 +85,15 @@ def loc(t: Term) -> Term:
 def strip_abs(l: Term) -> Term:
     while l[0] == "ABS":
         l = l[1]
-    return l
+    return ident(l)
+
+
+def ident(t: Term) -> Term:
+    """The term with every container reduced to its identity: what a container holds at the moment a term is built must not decide
+    whether two terms denote the same value."""
+    if not any(x[0] == "box" for x in subterms(t)):
+        return t
+    return rewrite(t, lambda x: ("box", x[1], x[2], ("unk", "", 0)) if x[0] == "box" else None)
 
 
 def show_loc(l: Term) -> str:
